@@ -63,14 +63,14 @@ M('lri-setdefault-lock-released-early', 'C03', 'cacheutils.py',
 
 # ---------------------------------------------------------------- C04
 M('atomic-save-no-fsync', 'C04', 'fileutils.py',
-  "            self.part_file.flush()\n            os.fsync(self.part_file.fileno())\n            self.part_file.close()",
-  "            self.part_file.flush()\n            self.part_file.close()")
+  "                self.part_file.flush()\n                os.fsync(self.part_file.fileno())\n                self.part_file.close()",
+  "                self.part_file.flush()\n                self.part_file.close()")
 M('atomic-save-rename-before-close', 'C04', 'fileutils.py',
-  "            self.part_file.flush()\n            os.fsync(self.part_file.fileno())\n            self.part_file.close()\n        if exc_type:",
-  "            if exc_type is None:\n                atomic_rename(self.part_path, self.dest_path, overwrite=self.overwrite)\n                open(self.part_path, 'ab').close()\n            self.part_file.flush()\n            os.fsync(self.part_file.fileno())\n            self.part_file.close()\n        if exc_type:")
+  "        if self.part_file:\n            try:\n                # Ensure data is flushed and synced to disk before closing\n",
+  "        if self.part_file:\n            if exc_type is None:\n                atomic_rename(self.part_path, self.dest_path, overwrite=self.overwrite)\n                open(self.part_path, 'ab').close()\n            try:\n                # Ensure data is flushed and synced to disk before closing\n")
 M('atomic-save-fsync-before-flush', 'C04', 'fileutils.py',
-  "            self.part_file.flush()\n            os.fsync(self.part_file.fileno())\n",
-  "            os.fsync(self.part_file.fileno())\n            self.part_file.flush()\n")
+  "                self.part_file.flush()\n                os.fsync(self.part_file.fileno())\n",
+  "                os.fsync(self.part_file.fileno())\n                self.part_file.flush()\n")
 M('atomic-save-writes-dest-directly', 'C04', 'fileutils.py',
   "            self.part_path = dest_path + '.part'\n",
   "            self.part_path = dest_path + '.part'\n            if self.overwrite and not os.path.lexists(dest_path):\n                self.part_path = dest_path\n")
